@@ -18,6 +18,18 @@ NOT_APPLICABLE = {
 }
 
 CHECKS = {
+    "C14": {
+        "level_text": "Proof per function over all inputs: 15 tuple impls (recording sink, symbolic success/failure per element), assembler push cases, empty stub; flattening lemma by structural induction over clause trees. Partial: the compile-time half has no runtime obligation.",
+        "design_ref": "DESIGN.md §4 C14",
+        "level_note": "Trusted: Kani/CBMC, Verus/Z3, BTreeMap keyed by TypeId; compile-fail half not applicable.",
+        "technique": "function contracts: Kani full-domain contract harnesses per tuple arity and assembler case + Verus structural-induction lemma",
+    },
+    "C01": {
+        "level_text": "Bounded in the number of patterns of the called method (every other dimension - verdict vector, counter values, global index, fallback mode - fully symbolic): the first-match scan is an iterator chain out of Verus's reach, so its contract is checked by Kani per list length up to a stated bound and reported as bounded. Proof-level parts: counter frame/fetch_add contract, assembly append contract, lemmas over the contracts (all list lengths, all histories).",
+        "design_ref": "DESIGN.md §4 C01",
+        "level_note": "Deciding step for the scan is bounded (patterns <= 3 quick / 5 thorough). Trusted: BTreeMap::get isolation between methods, Kani/CBMC, Verus/Z3.",
+        "technique": "function contracts: bounded Kani contract harnesses on match_call_pattern/eval_dyn + full-domain Kani contracts on counter/assembler + Verus lemmas",
+    },
     "C09": {
         "level_text": "Proof for all instance states and environments (flags, strong count, thread ids, recorded reasons, pattern counts): function contracts on the extracted lifecycle functions with panic sites as precondition-carrying stubs, plus lemmas. Partial: real threads, Arc counting and helper clones are trusted/abstracted.",
         "design_ref": "DESIGN.md §4 C09",
